@@ -71,6 +71,7 @@ type event struct {
 }
 
 type kase struct {
+	sched   string // "" = sequential; else the 01-schedule of the last two events (sched.go)
 	backend string
 	ttl     int64
 	nn      int
@@ -87,10 +88,18 @@ func kvInt(tok, key string) (int64, error) {
 
 func parseCase(s string) (*kase, error) {
 	f := strings.Fields(s)
+	sched := ""
+	if len(f) > 2 && f[0] == "sched" {
+		sched = f[1]
+		if sched == "" || strings.Trim(sched, "01") != "" {
+			return nil, errors.New("bad schedule")
+		}
+		f = f[2:]
+	}
 	if len(f) < 4 {
 		return nil, errors.New("short case")
 	}
-	k := &kase{backend: f[0]}
+	k := &kase{backend: f[0], sched: sched}
 	switch k.backend {
 	case "mem", "red", "hyr", "hyl", "map", "byt":
 	default:
@@ -136,6 +145,12 @@ func parseCase(s string) (*kase, error) {
 			return nil, errors.New("bad event " + t)
 		}
 		k.evs = append(k.evs, e)
+	}
+	if k.sched != "" {
+		n := len(k.evs)
+		if n < 2 || k.evs[n-1].code == 't' || k.evs[n-2].code == 't' || k.evs[n-1].c.node == k.evs[n-2].c.node {
+			return nil, errors.New("sched: the last two events must be handler calls on different nodes")
+		}
 	}
 	return k, nil
 }
@@ -328,6 +343,7 @@ func routeTok(n *nodeEnv, x int64) string {
 }
 
 type runResult struct {
+	key      string // "K:<finding> " when the executed schedule is a witness of a known finding
 	obs      string
 	overshot bool // a real sleep took much longer than asked (timing-sensitive case must be rerun)
 }
@@ -366,6 +382,13 @@ func runCase(k *kase) (res runResult) {
 		mr.FlushAll()
 	}
 
+	g := newGate()
+	tids := make([]int, k.nn)
+	for j := range stores {
+		tids[j] = -1
+		stores[j] = &gatedStore{Storage: stores[j], g: g, tid: &tids[j]}
+	}
+
 	nodes := make([]*nodeEnv, k.nn)
 	idStore := storage.NewMemoryStorage(ctx)
 	for j := range nodes {
@@ -384,8 +407,7 @@ func runCase(k *kase) (res runResult) {
 		}
 	}()
 
-	var toks []string
-	for _, e := range k.evs {
+	deliver := func(e event) error {
 		var herr error
 		switch e.code {
 		case 'o':
@@ -419,7 +441,9 @@ func runCase(k *kase) (res runResult) {
 				mr.FastForward(d)
 			}
 		}
-		// observation: every watched client, asked on every node
+		return herr
+	}
+	observe := func() string {
 		var per []string
 		for _, x := range k.clients {
 			var ans []string
@@ -429,16 +453,64 @@ func runCase(k *kase) (res runResult) {
 			}
 			per = append(per, strconv.FormatInt(x, 10)+"="+strings.Join(ans, ","))
 		}
-		flag := "ok|"
-		if herr != nil {
-			flag = "er|"
+		return strings.Join(per, ";")
+	}
+	flagOf := func(err error) string {
+		if err != nil {
+			return "er|"
 		}
-		toks = append(toks, flag+strings.Join(per, ";"))
+		return "ok|"
+	}
+
+	var toks []string
+	seq := k.evs
+	if k.sched != "" {
+		seq = k.evs[:len(k.evs)-2]
+	}
+	for _, e := range seq {
+		herr := deliver(e)
+		toks = append(toks, flagOf(herr)+observe())
+	}
+	if k.sched != "" {
+		pair := k.evs[len(k.evs)-2:]
+		var errs [2]error
+		g.mu.Lock()
+		g.active = true
+		g.mu.Unlock()
+		for t := 0; t < 2; t++ {
+			tids[pair[t].c.node] = t
+		}
+		var wg sync.WaitGroup
+		for t := 0; t < 2; t++ {
+			wg.Add(1)
+			go func(t int) {
+				defer wg.Done()
+				defer g.finish(t)
+				defer func() {
+					if r := recover(); r != nil {
+						errs[t] = fmt.Errorf("panic: %v", r)
+					}
+				}()
+				errs[t] = deliver(pair[t])
+			}(t)
+		}
+		for _, ch := range k.sched {
+			g.step(int(ch - '0'))
+		}
+		g.release()
+		wg.Wait()
+		for j := range tids {
+			tids[j] = -1
+		}
+		if racy(g.trace) {
+			res.key = "K:index-check-then-act "
+		}
+		o := observe()
+		toks = append(toks, flagOf(errs[0])+o, flagOf(errs[1])+o)
 	}
 	res.obs = strings.Join(toks, " ")
 	return res
 }
-
 func totalTicks(k *kase) time.Duration {
 	var s int64
 	if realClock(k.backend) {
@@ -450,13 +522,13 @@ func totalTicks(k *kase) time.Duration {
 }
 
 // execCase runs a case line under recover and a watchdog.
-func execCase(cs string) string {
+func execCase(cs string) (string, string) {
 	k, err := parseCase(cs)
 	if err != nil {
-		return "bad-case:" + sanitize(err.Error())
+		return "", "bad-case:" + sanitize(err.Error())
 	}
 	if realClock(k.backend) && totalTicks(k) > 20*time.Second {
-		return "bad-case:sleeps_too_long"
+		return "", "bad-case:sleeps_too_long"
 	}
 	for attempt := 0; ; attempt++ {
 		done := make(chan runResult, 1)
@@ -473,9 +545,9 @@ func execCase(cs string) string {
 			if r.overshot && attempt < 3 {
 				continue
 			}
-			return r.obs
+			return r.key, r.obs
 		case <-time.After(15*time.Second + totalTicks(k)):
-			return "timeout"
+			return "", "timeout"
 		}
 	}
 }
@@ -504,14 +576,22 @@ func main() {
 		if i := strings.Index(cs, " ## "); i >= 0 {
 			cs = cs[:i]
 		}
-		obs := execCase(cs)
+		wkey, obs := execCase(cs)
+		if key == "" {
+			key = wkey
+		}
 		f := strings.Fields(cs)
 		dk := ""
 		if len(f) > 5 {
 			dk = cs
 		}
 		out.Case(key+cs, obs, dk)
-		if len(f) > 0 {
+		if len(f) > 2 && f[0] == "sched" {
+			out.Count("sched/" + f[2])
+			if wkey != "" {
+				out.Count("sched/check-then-act-window")
+			}
+		} else if len(f) > 0 {
 			out.Count("backend/" + f[0])
 		}
 		switch {
